@@ -4,7 +4,7 @@
 // exploration: it complements the controlled-scheduler search, which is blind to accesses
 // between scheduling points.
 //
-// usage: racepass <tier> [scenario-index]   (exit 66 = race reported by the runtime)
+// usage: racepass <tier> [scenario-index | from:A[:B]]   (exit 66 = race reported by the runtime)
 package main
 
 import (
@@ -72,10 +72,11 @@ func main() {
 		tier = os.Args[1]
 	}
 	scs := conc.Scenarios(tier)
-	only, from := -1, 0
+	only, from, to := -1, 0, len(scs)
 	if len(os.Args) > 2 {
 		if len(os.Args[2]) > 5 && os.Args[2][:5] == "from:" {
-			from, _ = strconv.Atoi(os.Args[2][5:])
+			// from:A or from:A:B (B exclusive)
+			fmt.Sscanf(os.Args[2][5:], "%d:%d", &from, &to)
 		} else {
 			only, _ = strconv.Atoi(os.Args[2])
 		}
@@ -86,7 +87,7 @@ func main() {
 	}
 	n := 0
 	for i := range scs {
-		if (only >= 0 && i != only) || i < from {
+		if (only >= 0 && i != only) || i < from || i >= to {
 			continue
 		}
 		// tell the parent which scenario is running (a race report kills the process)
